@@ -67,7 +67,7 @@ PROPS = {
         'halt_is_violation': True, 'crash_is_witness': True,
     },
     'C03': {
-        'theorems': 'Properties/C03', 'scenarios': ['flow-offline-super'], 'obligation_files': ['Obligations/ObAmbient'],
+        'theorems': 'Properties/C03', 'scenarios': ['flow-offline-super', 'flow-stake-before-pledge'], 'obligation_files': ['Obligations/ObAmbient'],
         'profiles': [STAKING, NODE, P('twin:sao', 4, 24, 150), P('twin:staking', 6, 32, 150), P('twin:did', 2, 8, 120), P('twin:node', 2, 8, 150),
                      P('twin:scenario:d10-residue', 1, 1, 0), P('twin:scenario:twin-gov-params', 1, 1, 0), P('twin:scenario:twin-multimsg-rollback', 1, 1, 0)],
         'projection': ['proc.sharesBeforeModified', 'node.Node#5', 'node.Node#6'], 'monitors': ['proc.', 'twin.'], 'families': ['staking', 'node', 'block'],
@@ -79,25 +79,25 @@ PROPS = {
         'monitors': ['solv.market', 'solv.order', 'cons.', 'frame.supply'], 'families': ['sao', 'block', 'node'],
     },
     'C05': {
-        'theorems': 'Properties/C05', 'scenarios': ['flow-sponsor-rollback', 'flow-renewed-versions', 'flow-late-ready'], 'obligation_files': ['Proofs/Refinement'],
+        'theorems': 'Properties/C05', 'scenarios': ['flow-sponsor-rollback', 'flow-renewed-versions', 'flow-late-ready', 'flow-unnamed-rollback'], 'obligation_files': ['Proofs/Refinement'],
         'profiles': [SAO, SAOLONG],
         'projection': ['bank.Balance', 'order.Order+keys', 'order.Shard+keys', 'model.Metadata', 'model.Model', 'model.ExpiredData'],
         'monitors': ['sched.expdata_live', 'sched.meta_scheduled', 'sched.meta_expiry_is_shard_end', 'ref.model_alias', 'rollback.'], 'families': ['sao', 'block'],
     },
     'C06': {
-        'theorems': 'Properties/C06', 'scenarios': ['flow-debt-claim', 'flow-timeout-giveup', 'flow-debt-release', 'flow-rollover-coincide', 'flow-short-renewal'], 'obligation_files': ['Obligations/ObShape', 'Proofs/Refinement'],
+        'theorems': 'Properties/C06', 'scenarios': ['flow-debt-claim', 'flow-timeout-giveup', 'flow-debt-release', 'flow-rollover-coincide', 'flow-short-renewal', 'flow-renew-many-poor'], 'obligation_files': ['Obligations/ObShape', 'Proofs/Refinement'],
         'profiles': [SAO, SAOLONG, NODE],
         'projection': ['bank.Balance', 'bank.Supply', 'node.PledgeDebt', 'did.DidBalances'],
         'monitors': ['solv.'], 'families': ['sao', 'block', 'node', 'bank'],
     },
     'C07': {
-        'theorems': 'Properties/C07', 'scenarios': ['flow-debt-claim', 'flow-renew2-migrate', 'flow-debt-release', 'flow-short-renewal'], 'obligation_files': [],
+        'theorems': 'Properties/C07', 'scenarios': ['flow-debt-claim', 'flow-renew2-migrate', 'flow-debt-release', 'flow-short-renewal', 'flow-renew-many-poor', 'flow-capacity-edge'], 'obligation_files': [],
         'profiles': [SAO, SAOLONG, NODE],
         'projection': ['bank.Balance', 'node.Pledge#0', 'node.Pledge#1', 'node.Pledge#4', 'node.Pledge#5', 'node.PledgeDebt', 'order.Shard#4', 'order.Shard#9'],
         'monitors': ['agg.used_bounds', 'agg.shpledged_is_sum', 'agg.used_is_sum', 'frame.node_msgs', 'solv.node', 'coll.release_exact'], 'families': ['sao', 'block', 'node'],
     },
     'C08': {
-        'theorems': 'Properties/C08', 'scenarios': ['flow-debt-claim'], 'obligation_files': ['Obligations/ObShape', 'Proofs/Refinement'],
+        'theorems': 'Properties/C08', 'scenarios': ['flow-debt-claim', 'flow-capacity-edge'], 'obligation_files': ['Obligations/ObShape', 'Proofs/Refinement'],
         'profiles': [NODE, SAO, SAOLONG],
         'projection': ['bank.Supply', 'node.Pool', 'node.Pledge#2', 'node.Pledge#3', 'node.Pledge#4'],
         'monitors': ['agg.pool_is_sum', 'frame.supply', 'solv.node', 'mint.'], 'families': ['block', 'node', 'sao'],
@@ -128,21 +128,21 @@ PROPS = {
         'monitors': ['sched.timeout_scheduled', 'sched.long_timeout_scheduled', 'sched.timeouts_future', 'sel.order_sps_distinct'], 'families': ['block', 'sao'],
     },
     'C13': {
-        'theorems': 'Properties/C13', 'scenarios': ['flow-renew2-migrate', 'flow-rollover-coincide'], 'obligation_files': ['Proofs/Refinement'],
+        'theorems': 'Properties/C13', 'scenarios': ['flow-renew2-migrate', 'flow-rollover-coincide', 'flow-unnamed-rollback'], 'obligation_files': ['Proofs/Refinement'],
         'profiles': [SAO, SAOLONG],
         'projection': ['order.Order#7', 'order.Order+keys', 'order.Shard#0', 'order.Shard+keys', 'model.Metadata+keys', 'model.Metadata#1', 'model.Metadata#2',
                        'model.Model', 'sao.ExpiredShard'],
         'monitors': ['ref.'], 'families': ['sao', 'block'],
     },
     'C14': {
-        'theorems': 'Properties/C14', 'scenarios': ['flow-debt-claim', 'flow-renew2-migrate', 'flow-debt-release', 'flow-rollover-coincide', 'flow-short-renewal'], 'obligation_files': ['Proofs/Refinement'],
+        'theorems': 'Properties/C14', 'scenarios': ['flow-debt-claim', 'flow-renew2-migrate', 'flow-debt-release', 'flow-rollover-coincide', 'flow-short-renewal', 'flow-renew-many-poor', 'flow-capacity-edge'], 'obligation_files': ['Proofs/Refinement'],
         'profiles': [SAO, SAOLONG, NODE],
         'projection': ['node.Pledge#0', 'node.Pledge#1', 'node.Pledge#4', 'node.Pledge#5', 'market.Worker#0', 'market.Worker#2', 'node.Pool#0', 'node.Pool#6',
                        'order.Shard#2', 'order.Shard#4'],
         'monitors': ['agg.'], 'families': ['sao', 'block', 'node'],
     },
     'C15': {
-        'theorems': 'Properties/C15', 'scenarios': ['flow-timeout-giveup'], 'obligation_files': ['Obligations/ObShape'],
+        'theorems': 'Properties/C15', 'scenarios': ['flow-timeout-giveup', 'flow-renew2-migrate'], 'obligation_files': ['Obligations/ObShape'],
         'profiles': [SELECT, SAO],
         'projection': ['select', 'node.NodeRound', 'order.Shard#6', 'order.Shard+keys'],
         'monitors': ['sel.'], 'families': ['select', 'sao', 'block'], 'crash_is_witness': True,
@@ -171,7 +171,7 @@ PROPS = {
         'monitors': ['frame.faults', 'authz.faults', 'authz.recover_own', 'authz.report_valid'], 'families': ['fault'],
     },
     'C20': {
-        'theorems': 'Properties/C20', 'scenarios': ['flow-offline-super'], 'obligation_files': ['Obligations/ObShape'],
+        'theorems': 'Properties/C20', 'scenarios': ['flow-offline-super', 'flow-stake-before-pledge', 'flow-slashed-validator'], 'obligation_files': ['Obligations/ObShape'],
         'profiles': [STAKING, NODE],
         'projection': ['node.Node#5', 'node.Node#6'], 'monitors': ['super.'], 'families': ['staking', 'node', 'block'],
     },
